@@ -26,6 +26,8 @@ def main():
     for a in sys.argv[3:]:
         if a.startswith("--budget="):
             budget = a.split("=")[1]
+        elif a.startswith("--"):
+            continue
         else:
             checks = a.split(",")
     wt = "/tmp/mw/" + name
